@@ -29,6 +29,16 @@ class Items:
             return None
         return it
 
+    def require_fn(self, ctx, feature):
+        """like assoc_fn, but a feature that is requested and has no item is a violation (a silently dropped feature)"""
+        if feature not in self.inst.feats:
+            return None
+        it = self.assoc_fn(feature)
+        if it is None:
+            ctx.violation('exists', self.inst, feature, 'feature `%s` is requested but the derive impl has no function `%s`' % (feature, self.inst.feature_name(feature)),
+                          key='%s/exists/%s' % (ctx.prop, feature), construct=GEN_FILE.get(feature))
+        return it
+
     def trait_fn(self, trait_suffix, fn_name, self_pred=None):
         """(impl, item path) of method fn_name in the impl of a trait whose canonical path ends with trait_suffix"""
         out = []
